@@ -49,6 +49,7 @@ var brkSeq int64
 type bmodel struct {
 	now     time.Duration // virtual time since the breaker was created
 	buckets map[int64]*[3]int64
+	peer    *bmodel // model of another breaker living on the same (process-wide) virtual clock
 }
 
 func (m *bmodel) rec(kind int) {
@@ -76,6 +77,9 @@ func (m *bmodel) win(k int64) (succ, fail, drop int64) {
 
 func (m *bmodel) adv(d time.Duration) {
 	m.now += d
+	if m.peer != nil {
+		m.peer.now += d
+	}
 	timex.VerifAdvance(d)
 	// forget buckets that can never matter again
 	if len(m.buckets) > 400 {
@@ -103,9 +107,15 @@ type machine struct {
 	forcedProbes       int
 	calls              int
 	midCancelled       int
+	peer               *machine
+	noPkgLevel         bool // built with NewBreaker: not reachable through the package-level breaker.Do*(name, …)
 }
 
 func (mc *machine) logf(format string, a ...any) {
+	if mc.peer != nil && mc.peer.nlog < 120 { // the other breaker's history shows what happened in between
+		fmt.Fprintf(&mc.peer.log, " {other breaker:"+format+"}", a...)
+		mc.peer.nlog++
+	}
 	if mc.nlog < 120 {
 		fmt.Fprintf(&mc.log, format, a...)
 		mc.nlog++
@@ -122,6 +132,7 @@ func (mc *machine) logf(format string, a ...any) {
 // recorded according to the predicate like any other), 3 deadline already expired before the call.
 func (mc *machine) call(entry int, pkgLevel bool, outcome int, dur time.Duration, ctxMode int, fbNil bool) {
 	t, b, m := mc.t, mc.b, &mc.m
+	pkgLevel = pkgLevel && !mc.noPkgLevel
 	cancelled := ctxMode == 1 || ctxMode == 3
 	midCancel := func() {}
 	mc.calls++
@@ -380,6 +391,27 @@ func newMachine(t *rapid.T) *machine {
 	return &machine{t: t, b: b, name: name, m: bmodel{buckets: map[int64]*[3]int64{}}, lastAd: -1}
 }
 
+// newPeer adds a second, independent breaker to the case: same process, same virtual clock, its own
+// name, its own drop source and its own model.  Every law is asserted per breaker; what one breaker
+// records, when it last admitted and whether it throttles must not depend on the other.
+func newPeer(t *rapid.T, mc *machine) *machine {
+	name := fmt.Sprintf("verif-c01-%d", atomic.AddInt64(&brkSeq, 1))
+	var b breaker.Breaker
+	viaNew := rapid.Bool().Draw(t, "peerViaNew")
+	if viaNew {
+		b = breaker.NewBreaker(breaker.WithName(name))
+	} else {
+		b = breaker.GetBreaker(name)
+	}
+	if !breaker.VerifSeedProba(b, rapid.Int64().Draw(t, "peerProbaSeed")) {
+		t.Fatalf("white-box accessor no longer matches the breaker's structure")
+	}
+	p := &machine{t: t, b: b, name: name, m: bmodel{buckets: map[int64]*[3]int64{}}, lastAd: -1, noPkgLevel: viaNew}
+	p.peer, mc.peer = mc, p
+	p.m.peer, mc.m.peer = &mc.m, &p.m
+	return p
+}
+
 var gapsMs = []int{0, 1, 249, 250, 251, 999, 1000, 1001, 2500, 9740, 9750, 10000, 10010, 10260, 31000}
 
 func TestVerifC01StateMachine(t *testing.T) {
@@ -389,16 +421,30 @@ func TestVerifC01StateMachine(t *testing.T) {
 	defer timex.VerifUnfreeze()
 	rapid.Check(t, func(t *rapid.T) {
 		st.Eval()
-		mc := newMachine(t)
+		first := newMachine(t)
+		mcs := []*machine{first}
+		if rapid.IntRange(0, 2).Draw(t, "twoBreakers") == 0 {
+			mcs = append(mcs, newPeer(t, first))
+		}
+		mc := first
+		pick := func(t *rapid.T) {
+			mc = mcs[0]
+			if len(mcs) > 1 {
+				mc = mcs[rapid.IntRange(0, 1).Draw(t, "breaker")]
+			}
+			for _, x := range mcs {
+				x.t = t
+			}
+		}
 		t.Repeat(map[string]func(*rapid.T){
 			"call": func(t *rapid.T) {
-				mc.t = t
+				pick(t)
 				mc.call(rapid.IntRange(0, 9).Draw(t, "entry"), rapid.Bool().Draw(t, "pkgLevel"), rapid.IntRange(0, 4).Draw(t, "outcome"),
 					time.Duration(rapid.SampledFrom([]int{0, 0, 0, 1, 250, 1200, 3000}).Draw(t, "durMs"))*time.Millisecond,
 					rapid.SampledFrom([]int{0, 0, 0, 0, 0, 1, 2, 2, 3}).Draw(t, "ctxMode"), rapid.Bool().Draw(t, "fallbackNil"))
 			},
 			"burst": func(t *rapid.T) {
-				mc.t = t
+				pick(t)
 				n := rapid.IntRange(5, 400).Draw(t, "n")
 				outcome := rapid.SampledFrom([]int{oOK, oErr, oErr, oErr, oAccErr, oPanic, oNilBad}).Draw(t, "outcome")
 				sp := time.Duration(rapid.SampledFrom([]int{0, 1, 5, 40, 300}).Draw(t, "spacingMs")) * time.Millisecond
@@ -413,7 +459,7 @@ func TestVerifC01StateMachine(t *testing.T) {
 				mc.logf(" ]")
 			},
 			"advance": func(t *rapid.T) {
-				mc.t = t
+				pick(t)
 				d := time.Duration(rapid.SampledFrom(gapsMs).Draw(t, "gapMs")) * time.Millisecond
 				if rapid.Bool().Draw(t, "toBoundary") {
 					// land exactly on the next bucket boundary after the gap
@@ -421,21 +467,33 @@ func TestVerifC01StateMachine(t *testing.T) {
 				}
 				mc.m.adv(d)
 				mc.logf(" adv(%v)", d)
-				mc.checkAccounting()
+				for _, x := range mcs {
+					x.checkAccounting()
+				}
 			},
 		})
-		if mc.rejections > 0 {
-			st.Class("opened")
+		opened := 0
+		for _, mc := range mcs {
+			if mc.rejections > 0 {
+				st.Class("opened")
+				opened++
+			}
+			if mc.forcedProbes > 0 {
+				st.Class("forced-probe-exercised")
+			}
+			if mc.rejections > 0 && mc.admAfterReject > 0 {
+				st.NonTrivial(mc.log.String())
+			}
+			st.ClassN("calls", mc.calls)
+			st.ClassN("rejections", mc.rejections)
+			st.ClassN("calls-whose-context-ended-during-the-request", mc.midCancelled)
 		}
-		if mc.forcedProbes > 0 {
-			st.Class("forced-probe-exercised")
+		if len(mcs) > 1 {
+			st.Class("two-breakers")
+			if opened == 2 {
+				st.Class("two-breakers-both-opened")
+			}
 		}
-		if mc.rejections > 0 && mc.admAfterReject > 0 {
-			st.NonTrivial(mc.log.String())
-		}
-		st.ClassN("calls", mc.calls)
-		st.ClassN("rejections", mc.rejections)
-		st.ClassN("calls-whose-context-ended-during-the-request", mc.midCancelled)
 	})
 }
 
